@@ -120,6 +120,22 @@ pub fn arm_LambdaCallKind(lambda: &mut Box<Node>, args: &mut Vec<Node>, name: &s
 //@arm base/src/expressions/parser/stringify.rs rename_defined_name_in_node `Node::LambdaCallKind { lambda, args }`
 //@end
 
+// ---- the call site in Model::update_defined_name: every stored formula is rewritten with the OLD name and the OLD scope (the scope the uses
+// ---- were resolved in), whatever the new scope is ----
+#[verifier::external_body] pub struct Parser { _o: u8 }
+#[verifier::external_body] pub struct CellReferenceRC { _o: u8 }
+impl Parser {
+    #[verifier::external_body] pub fn parse(&mut self, formula: &String, context: &CellReferenceRC) -> Node { unimplemented!() }
+}
+#[verifier::external_body] pub fn to_rc_format(node: &Node) -> String { unimplemented!() }
+pub fn site_update_defined_name(parser: &mut Parser, formula: &String, cell_reference: CellReferenceRC, formulas: &mut Vec<String>,
+                                name: &str, scope: Option<u32>, new_name: &str, new_scope: Option<u32>)
+    requires name@ == g_old(), scope == g_scope(), new_name@ == g_name()
+{
+//@fragment base/src/model.rs Model::update_defined_name `let mut t = self.parser.parse(formula, &cell_reference);` .. `formulas.push(to_rc_format(&t));`
+//@rewrite `self.parser.parse(` => `parser.parse(`
+//@end
+}
 
 } // verus!
 fn main() {}
